@@ -1,6 +1,6 @@
 (* Instance of RG.Locks for the lock protocol regenerated from /repo/ruleguard (Gen_Locks.v): re-proved on every check. *)
 From Coq Require Import List NArith String Bool.
-From RG.Locks Require Import Model Sites Cache Confine.
+From RG.Locks Require Import Model Sites Cache Confine Progress.
 From RGW Require Import Gen_Locks.
 Import ListNotations.
 Local Open Scope N_scope.
@@ -77,6 +77,24 @@ Proof.
   intros progs I. apply (writer_excludes guard).
   eapply disciplined_incl; [exact sites_disciplined | exact I].
 Qed.
+
+(* lock order: the type cache's mutex is taken before the package cache's (FindType imports under its write lock);
+   any further mutex ranks after them in declaration order *)
+Definition rank (m : N) : nat :=
+  match mutex_named "engineState.typeByFQNMu", mutex_named "engineState.pkgCacheMu" with
+  | Some a, Some b => if N.eqb m a then 0%nat else if N.eqb m b then 1%nat else (2 + N.to_nat m)%nat
+  | _, _ => N.to_nat m
+  end.
+
+Lemma run_paths_ordered : all_ordered rank run_progs = true.
+Proof. vm_compute. reflexivity. Qed.
+
+(* no deadlock: whatever the interleaving, as long as some call is unfinished some call can take a step *)
+Theorem run_paths_deadlock_free :
+  forall progs, incl progs run_progs ->
+  forall s, reachable (init progs) s ->
+    (exists t, In t (threads s) /\ ~ finished t) -> exists s', step s s'.
+Proof. apply (ordered_set_progress guard rank run_progs sites_disciplined run_paths_ordered). Qed.
 
 (* the site table emitted by the translator is the one the paths give *)
 Definition held_sub (a b : list (mutex * mode)) : bool := forallb (fun k => Nat.eqb (cnt k a) (cnt k b)) (a ++ b).
